@@ -143,8 +143,8 @@ impl XDiscreteDistribution {
         }
     }
 
-    fn quantile(&self, x: f64) -> LazyBigint {
-        match self {
+    fn quantile(&self, x: f64) -> Option<LazyBigint> {
+        Some(match self {
             Self::Binomial(i) => inverse_cdf(i, x).into(),
             Self::Custom(items) => {
                 let idx = items.partition_point(|(_, p)| p <= &x);
@@ -154,22 +154,18 @@ impl XDiscreteDistribution {
             Self::NegativeBinomial(i) => {
                 if i.r() == 1.0 {
                     let p = i.p();
-                    (((1.0 - x) / (1.0 - p)).ln() / (1.0 - p).ln())
-                        .floor()
-                        .to_i64()
-                        .unwrap()
-                        .into()
+                    LazyBigint::from_f64(
+                        (((1.0 - x) / (1.0 - p)).ln() / (1.0 - p).ln()).floor(),
+                    )?
                 } else {
                     inverse_cdf(i, x).into()
                 }
             }
             Self::Poisson(i) => inverse_cdf(i, x).into(),
-            Self::Uniform(i) => (x * ((i.max() - i.min() + 1) as f64) + (i.min() - 1) as f64)
-                .floor()
-                .to_i64()
-                .unwrap()
-                .into(),
-        }
+            Self::Uniform(i) => LazyBigint::from_f64(
+                (x * ((i.max() - i.min() + 1) as f64) + (i.min() - 1) as f64).floor(),
+            )?,
+        })
     }
 
     fn sample(&self, n: usize, rng: &mut impl RngCore) -> Vec<LazyBigint> {
@@ -506,7 +502,8 @@ pub(crate) fn add_discdist_quantile<W, R, T>(
             if *f1 > 1.0 || *f1 < 0.0 {
                 return xerr(ManagedXError::new("quantile must be between 0 and 1", rt)?);
             }
-            Ok(ManagedXValue::new(XValue::Int(d0.quantile(*f1)), rt)?.into())
+            let Some(ret) = d0.quantile(*f1) else { return xerr(ManagedXError::new("quantile is not finite", rt)?); };
+            Ok(ManagedXValue::new(XValue::Int(ret), rt)?.into())
         }),
     )
 }
